@@ -29,6 +29,9 @@ type C16Client struct {
 	Publish int   `json:"publish"` // bytes to publish on its own topic (0 = none)
 	MsgSize int   `json:"msg_size"`
 	KA1     bool  `json:"ka1"` // negotiates keep-alive 1 s
+	// EmptyID: the CONNECT carries a zero-length client identifier (allowed with CleanSession=1; the
+	// broker makes one up); Clean is taken as true
+	EmptyID bool `json:"empty_id,omitempty"`
 	// WillSize > 0: the will message has this many bytes (up to 65535; a will may be
 	// larger than the 16 KiB buffers of the connections it would be delivered to)
 	WillSize int `json:"will_size,omitempty"`
@@ -162,6 +165,10 @@ func runC16(c C16Case) (res c16result) {
 			ka = 1
 		}
 		cp := wire.ConnectPacket(fmt.Sprintf("k%d", i), cl.Clean, ka)
+		if cl.EmptyID {
+			cp = wire.ConnectPacket("", true, ka)
+			cls["zero-length-client-identifier"] = true
+		}
 		if cl.Will {
 			cp.ConnectFlags |= 4 | 8
 			cp.WillTopic, cp.WillMessage = []byte(fmt.Sprintf("will/%d", i)), []byte(fmt.Sprintf("will-of-%d", i))
@@ -294,7 +301,7 @@ func runC16(c C16Case) (res c16result) {
 			continue
 		}
 		cause := e.Cause
-		if (cause == "disconnect" || cause == "garbage" || cause == "oversize" || cause == "subscribe-close") && c.Clients[i].Publish > 0 {
+		if (cause == "disconnect" || cause == "garbage" || cause == "oversize" || cause == "subscribe-close" || cause == "second-connect") && c.Clients[i].Publish > 0 {
 			cause = "close" // its writer may be blocked behind unsent publishes
 		}
 		if cause == "keepalive" && !c.Clients[i].KA1 {
@@ -368,6 +375,14 @@ func runC16(c C16Case) (res c16result) {
 		case "garbage":
 			conns[i].SendAsync([]byte{0xF0, 0})
 			wantWill[i] = c.Clients[i].Will
+		case "second-connect":
+			// a second CONNECT is a protocol violation (MQTT-3.1.0-2); whether the broker ignores it
+			// or drops the client, the socket is cut afterwards: no DISCONNECT was sent, the will is due
+			conns[i].SendAsync(codec.Encode(wire.ConnectPacket(fmt.Sprintf("k%d", i), c.Clients[i].Clean, 300)))
+			settled(300 * time.Millisecond)
+			conns[i].Close()
+			wantWill[i] = c.Clients[i].Will
+			cls["end:second-connect"] = true
 		case "oversize":
 			// a PUBLISH the inbound buffer may be unable to take in, then the socket is
 			// closed: whatever the broker does with the packet, the connection has ended
@@ -471,8 +486,21 @@ func runC16(c C16Case) (res c16result) {
 				return c16result{Fail: fmt.Sprintf("connection %d (will=%v) ended: its will was published %d times, expected %d", i, cl.Will, g, want)}
 			}
 		}
-		// clean sessions are discarded, persistent ones kept
+		// clean sessions are discarded, persistent ones kept: the store holds the witness's session and
+		// one per client that connected with CleanSession=0
+		wantSess := 1
+		for _, cl := range c.Clients {
+			if !cl.Clean && !cl.EmptyID {
+				wantSess++
+			}
+		}
+		if n := b.SessionCount(); n >= 0 && n != wantSess {
+			return c16result{Fail: fmt.Sprintf("every connection but the witness's has ended and been torn down: the session store holds %d sessions, expected %d (the witness's and one per CleanSession=0 client): a clean session was not discarded, or a persistent one was", n, wantSess)}
+		}
 		for i, cl := range c.Clients {
+			if cl.EmptyID {
+				continue
+			}
 			pr := b.Dial(fmt.Sprintf("probe%d", i))
 			ack, err := pr.Connect(wire.ConnectPacket(fmt.Sprintf("k%d", i), false, 300))
 			if err != nil {
@@ -602,6 +630,9 @@ func genC16(t *rapid.T) C16Case {
 	}
 	for i := 0; i < n; i++ {
 		cl := C16Client{Clean: rapid.Bool().Draw(t, "clean"), Will: rapid.Bool().Draw(t, "will"), KA1: rapid.IntRange(0, 6).Draw(t, "ka1") == 0}
+		if rapid.IntRange(0, 5).Draw(t, "emptyid") == 0 {
+			cl.EmptyID, cl.Clean = true, true
+		}
 		if cl.Will && rapid.IntRange(0, 4).Draw(t, "bigwill") == 0 {
 			cl.WillSize = rapid.SampledFrom([]int{3000, 9000, 16300, 20000, 65535}).Draw(t, "willsize")
 		}
@@ -623,7 +654,7 @@ func genC16(t *rapid.T) C16Case {
 		return p
 	}()).Draw(t, "order")
 	for _, i := range perm {
-		cause := rapid.SampledFrom([]string{"disconnect", "close", "close", "garbage", "keepalive", "close", "oversize", "subscribe-close"}).Draw(t, "cause")
+		cause := rapid.SampledFrom([]string{"disconnect", "close", "close", "garbage", "keepalive", "close", "oversize", "subscribe-close", "second-connect"}).Draw(t, "cause")
 		end := C16End{C: i, Cause: cause}
 		if cause == "subscribe-close" {
 			end.Total = rapid.SampledFrom([]int{1, 20, 200, 200, 1500}).Draw(t, "nfilters")
